@@ -32,6 +32,8 @@ func init() {
 			{ID: "R15h", Floor: 1, Doc: "traversalCar.WriteTo reports what reached the writer: every return after the payload pass (successful or not) includes the byte count of that pass", Run: ruleR15h},
 			{ID: "R15k", Floor: 1, Doc: "every traversal pass has its own link budget: the traversal.Budget a Progress is given is allocated in the function that starts the walk (the sizing pass and the writing pass of one writer must not draw on one counter)", Run: ruleR15k},
 			{ID: "R15l", Floor: 2, Doc: "an error of the underlying link system reaches the traversal unchanged from the loaders (traversal.SkipMe is recognised by type assertion: wrapped, it aborts the walk in one pass and not in the other)", Run: ruleR15l},
+			{ID: "R15m", Floor: 3, Doc: "every dag the caller listed is in the header and is walked: NewSelectiveCar keeps its dags parameter itself, and traverseHeader / traverseBlocks range over that field itself (no filtered or de-duplicated list: two dags may share a root and differ in selector, and the header lists roots as given)", Run: ruleR15m},
+			{ID: "R15n", Floor: 1, Doc: "the block callback of SelectiveCar.Write writes every block it is handed: no nil return without LdWrite (the traversal has counted the block and advanced the offset already)", Run: ruleR15n},
 			{ID: "R15c", Floor: 1, Doc: "size-mismatch guard", Run: ruleR15c},
 			{ID: "R15i", Floor: 8, Doc: "the announced section size and the written framing come from the same length formula (= R01b)", Run: ruleR01b},
 		},
@@ -47,7 +49,7 @@ func ruleR15a(c *Ctx, r *Report) {
 		// the callback invocation: dynamic call of the loaded field onNewCarBlock
 		var cb *ssa.Call
 		eachInstr(fn, func(in ssa.Instruction) {
-			if ci, ok := in.(*ssa.Call); ok && !ci.Common().IsInvoke() && ci.Common().StaticCallee() == nil {
+			if ci, ok := in.(*ssa.Call); ok && !ci.Common().IsInvoke() && staticTarget(ci.Common()) == nil {
 				if loadsField(canon(ci.Common().Value), modRoot, "selectiveCarTraverser", "onNewCarBlock") {
 					cb = ci
 				}
